@@ -26,7 +26,7 @@ SCHED_PROPS = {
     'C14': ((900, 9000), (18, 150)), 'C07': ((450, 4500), (6, 45)), 'C05': ((300, 3000), (3, 30)),
     'C06': ((900, 9000), (18, 150)), 'C12': ((300, 3000), (3, 30)),
     'C10': ((600, 6000), (0, 0)),
-    'C11': ((900, 9000), (12, 90)),
+    'C11': ((1800, 12000), (12, 90)),
     'C15': ((0, 0), (0, 0)),
 }
 
